@@ -248,6 +248,17 @@ func (pr *Prover) discharge(vc *VC, o *Oblig, prelude string, axioms []string) *
 	}
 	proved, sat, errRes := record(runGroup([]attempt{{cfg: cfgs[0], file: file, timeout: t1}}))
 	if proved {
+		if pr.tier == "thorough" && o.Kind != "canary" {
+			// cross-check with the other z3 version: "sat" from it contradicts the proof (engine error, not a verdict)
+			st, out, ms := runSolver(cfgs[1], file, pr.timeout)
+			v.Ms += ms
+			v.Tried = append(v.Tried, "cross:"+cfgs[1].name+":"+st)
+			if st == "sat" && !quant {
+				v.Status = "error"
+				v.Output = "solver disagreement: " + cfgs[0].name + " says unsat, " + cfgs[1].name + " says sat\n" + out
+				return v
+			}
+		}
 		cleanup()
 		return v
 	}
